@@ -122,8 +122,10 @@ def replay(ctx, path):
     if rep.get("behaviour") and isinstance(keys, list):
         # re-execute the behaviour on the real code (key list without padding), validate the fresh trace
         ks = "Q" if any(k["name"] == 5 for k in keys if k["name"] < 1000) else "X"
-        for s in range(3):
+        for s in range(6):
             run_behaviours(ctx, [rep["behaviour"]], ks, 0, ctx.seed * 100 + s, "replay of " + os.path.basename(path))
+        return
+    # nothing to re-execute (mass run): the recorded trace itself is judged again
     rows = [x for x in rep["scenario_trace"] if x.get("ev") != "..."]
     tf = os.path.join(ctx.scratch, "replay.ndjson")
     vlib.write_ndjson(tf, rows)
